@@ -29,7 +29,7 @@ from . import build
 
 VERIF = build.VERIF
 WORK = os.path.join(VERIF, ".work")
-KNOWN = os.path.join(VERIF, "known_findings.json")
+KNOWN = os.environ.get("VERIF_KNOWN_FILE") or os.path.join(VERIF, "known_findings.json")      # the override is for development sweeps only (tools), never used by a registered command
 
 HELD, VIOLATED, INCONCLUSIVE = "held", "violated", "inconclusive"
 
